@@ -1158,7 +1158,8 @@ fn main() {
     let mut exhaustive = true;
     let mut extra: BTreeMap<String, Value> = BTreeMap::new();
     for (name, bounds) in &searches {
-        let cfg = BfsConfig { max_depth: bounds.max_depth, max_states: 50_000_000, max_wall_s: ctx.pick(45.0, 1200.0) };
+        // wall-clock caps per search (a capped search is reported as not exhaustive)
+        let cfg = BfsConfig { max_depth: bounds.max_depth, max_states: 50_000_000, max_wall_s: ctx.pick(900.0, if *name == "ignored-dir" { 250.0 } else { 650.0 }) };
         let stats = bfs::search(&cfg, |h: &[Act]| step(&ctx, &tally, &samples, bounds, h, bounds.max_depth), act_label);
         states += stats.states;
         transitions += stats.transitions;
